@@ -28,6 +28,14 @@ from props import hashcommon as HC
 PREFIX = ('blakeseq', 'blake2seq')
 LEAN_PROOFS = ['Proofs.C14_Blake']
 GEN_ITEMS = ['BlakeG']
+RULE = ('`blakeseqs <classes> | <k> step | env <name>`: whole lives of ONE object before the piecewise run — complete one-shot calls with each '
+        'optional parameter (BLAKE: s, bitlen; BLAKE2: outlen, salt, pers, tree parameters), refused calls, finished / abandoned / refused '
+        'salted streams, several in a row — then initstate() with NO keyword (the defaults of the method) or with a keyword, and the '
+        'stream compared with the one-shot call of a fresh object with just those keywords; SEVERAL objects alive in one line (same class, '
+        'the other digest size of the same word size, BLAKE2 of the same block size, the module singletons blake224 … blake2s) initialised '
+        'with another salt, fed, called, finished or refused between two pieces; two and three streams interleaved piece by piece; library '
+        'activity (SHA-2 / HMAC / other Blake objects and singletons) between two pieces.  The Lean objects are values in a list (Model.Multi): '
+        'no interference and no memory across initstate by construction there; the lines test the Python objects')
 TRUSTED = ['the counter / flag trace of the real code is observed by wrapping the name `Bits` in crysp.blake']
 ASSUMPTIONS = ['BLAKE2 streaming with an EMPTY final piece after data cannot equal the one-shot digest without buffering (known finding C14-blake2-empty-final)']
 
